@@ -229,6 +229,12 @@ def cases(tier):
     for L in (1, 2) if tier == 'quick' else (1, 2, 3):
         for seq in itertools.product(range(n), repeat=L):
             yield ('trace', seq)
+    # calls followed by inline data: the unexecuted bytes after a CALL decode (linearly) into an instruction
+    # that straddles the start of the next executed block; that block ends in a RET that is followed by
+    # more executed code which nothing CALLs or JPs to
+    for data in ((0x00, 0x21), (0xDD, 0x21), (0x3E, 0x01), (0x01, 0xCD), (0xFF, 0xED), (0x21, 0x21), (0x48, 0x69)):
+        for tailcode in ((0x3E, 0x41, 0xC9), (0x00, 0x00, 0xC9), (0xAF, 0x18, 0xFE), (0xCD, 0x00, 0x80)):
+            yield ('inline', (data, tailcode))
     # arbitrary maps: every subset of an 8-byte window on fixed images
     fixed = [(0, 8, 7), (15, 0), (7, 9, 13), (13, 14, 0, 18), (16, 1), (19, 20, 11, 0), (4, 0, 8, 19), (4, 8, 8, 8), (1, 8, 19), (21, 8, 19), (21, 7, 12), (21, 8, 7)]
     for fi, seq in enumerate(fixed):
@@ -278,6 +284,19 @@ def run_one(kind, spec, tier):
                         p, n = check(data, ORG, end, opts, addrs, fmt, tail=tail)
                         yield ('trace/{}/entry{}/{}/{}{}'.format(names, ei, fmt, ' '.join(opts) or '-', '/tail' if tail else ''),
                                {'kind': 'map', 'seq': list(seq), 'start': ORG, 'end': end, 'opts': list(opts), 'map': addrs, 'fmt': fmt, 'tail': tail}, p, n)
+    elif kind == 'inline':
+        inl, tailcode = spec
+        c_addr = ORG + 10
+        h_addr = ORG + 10 + len(tailcode)
+        data = bytes((0xCD, h_addr & 0xFF, h_addr >> 8) + tuple(inl) + (0x21, c_addr & 0xFF, c_addr >> 8, 0xE5, 0xC9) + tuple(tailcode) +
+                     (0xE1, 0x23, 0x23, 0xE9))
+        end = ORG + len(data)
+        addrs = exec_trace(data, ORG, ORG, end)
+        for fmt in MAP_FORMATS:
+            for opts in ((), ('-C',)):
+                p, n = check(data, ORG, end, opts, addrs, fmt)
+                yield ('inline/{}/{}/{}/{}'.format(''.join('%02X' % b for b in inl), ''.join('%02X' % b for b in tailcode), fmt, ' '.join(opts) or '-'),
+                       {'kind': 'map', 'raw': list(data), 'start': ORG, 'end': end, 'opts': list(opts), 'map': addrs, 'fmt': fmt}, p, n)
     else:
         seq, mask = spec
         data, starts = build(seq)
@@ -327,13 +346,16 @@ def run(tier, seed):
         bound='token sequences <= {}'.format(3 if tier == 'quick' else 4),
         assumptions=['the generated control file is fed to sna2skool with default options (sna2ctl -r already writes the RST argument sub-blocks)',
                      'for arbitrary (non-trace) address sets only termination and tiling are required (as the property states); trace maps get every clause'],
-        required_guards=['plain', 'trace', 'subset', 'fed_to_sna2skool'],
+        required_guards=['plain', 'trace', 'subset', 'inline', 'fed_to_sna2skool'],
     )
     return stats, meta
 
 
 def replay(case):
-    data, starts = build(tuple(case['seq']))
+    if case.get('raw'):
+        data = bytes(case['raw'])
+    else:
+        data, starts = build(tuple(case['seq']))
     if case.get('pad8'):
         data = (data + bytes(8))[:max(8, len(data))]
     p, n = check(data, case['start'], case['end'], tuple(case['opts']), case.get('map'), case.get('fmt'), tuple(case.get('ini', ())), case.get('dict'),
